@@ -460,11 +460,13 @@ class Lark(Serialize, Generic[_Return_T]):
         self._terminals_dict = {t.name: t for t in self.terminals}
 
         # If the user asked to invert the priorities, negate them all here.
+        # The options object of a rule is shared with the other alternatives of the rule and with the
+        # Grammar object (hence with other Lark instances built from it), so each rule gets its own copy.
         if self.options.priority == 'invert':
-            inverted = set()    # alternatives of one rule share their options object
+            from copy import copy
             for rule in self.rules:
-                if rule.options.priority is not None and id(rule.options) not in inverted:
-                    inverted.add(id(rule.options))
+                if rule.options.priority is not None:
+                    rule.options = copy(rule.options)
                     rule.options.priority = -rule.options.priority
             for term in self.terminals:
                 term.priority = -term.priority
@@ -472,8 +474,10 @@ class Lark(Serialize, Generic[_Return_T]):
         # rules and terminals. This allows the Earley parsers to skip an extra forest walk
         # for improved performance, if you don't need them (or didn't specify any).
         elif self.options.priority is None:
+            from copy import copy
             for rule in self.rules:
                 if rule.options.priority is not None:
+                    rule.options = copy(rule.options)
                     rule.options.priority = None
             for term in self.terminals:
                 term.priority = 0
